@@ -57,6 +57,9 @@ class ObjectiveWiring(Contract):
                         if optimizer == "incremental" and prio != "pareto":
                             continue
                         out.append(dict(nobj=nobj, dir=direction, optimizer=optimizer, prio=prio))
+        # an objective declared without a weight counts once (declared default)
+        out.append(dict(nobj=2, dir="min", optimizer="incremental", prio="pareto", default_w2=True))
+        out.append(dict(nobj=2, dir="max", optimizer="optimize", prio="weight", default_w2=True))
         return out
 
     def scenario(self, ps, P, case):
@@ -68,6 +71,9 @@ class ObjectiveWiring(Contract):
             targets.append(ps.IndicatorFromMathExpression(name="i2", expression=t2._start * 2))
         objs = []
         for i, ind in enumerate(targets):
+            if i == 1 and case.get("default_w2"):
+                objs.append(ps.Objective(name="o2", target=ind, kind=kind))
+                continue
             P.assume(P.int(f"w{i+1}") >= 1)
             objs.append(ps.Objective(name=f"o{i+1}", target=ind, weight=P.int(f"w{i+1}"), kind=kind))
         solver = ps.SchedulingSolver(problem=pb, optimizer=case["optimizer"], optimize_priority=case["prio"])
@@ -84,7 +90,7 @@ class ObjectiveWiring(Contract):
         A = G.stack()
         d = case["dir"]
         tv = [t._indicator_variable for t in targets]
-        ws = [T(P.int(f"w{i+1}")) for i in range(len(targets))]
+        ws = [z3.IntVal(1) if (i == 1 and case.get("default_w2")) else T(P.int(f"w{i+1}")) for i in range(len(targets))]
         weighted = z3.Sum([w * v for w, v in zip(ws, tv)])
         if case["optimizer"] == "optimize":
             reg = G.objectives
